@@ -52,4 +52,37 @@ theorem shipped_values_ok : ∀ d ∈ Gen.allEnums, valuesOk d = true := by
 theorem shipped_enum_ok (d : EnumDef) (hd : d ∈ Gen.allEnums) (hn : namesOk d = true) : enumOk d = true :=
   enumOk_of_parts d (shipped_values_ok d hd) hn
 
+/-! ### generated dialects -/
+
+/-- the table the enum template (`pkg/conversion`, pinned) writes for an XML enum: the entries in declaration order; for a
+    `bitmask="true"` enum `MarshalText` ranges over exactly those values -/
+def generatedEnum (name : String) (bitmask : Bool) (entries : List (String × Nat)) : EnumDef :=
+  { name := name, form := if bitmask then .valueList (entries.map (·.2)) else .plain, consts := entries }
+
+/-- **C19 (every generated enum).** For ANY XML enum whose entry names are distinct identifiers without blanks and whose values are
+    distinct and below 2^64 — flags of any width, overlapping groups of flags included — the generated table is well-formed, so
+    `plain_roundtrip` (every 64-bit value) resp. `bitmask_roundtrip` (zero and every combination of declared entries) hold for
+    the generated code. -/
+theorem generated_enum_ok (name : String) (bitmask : Bool) (entries : List (String × Nat))
+    (hnames : namesOk (generatedEnum name bitmask entries) = true)
+    (hvals : entries.all (fun c => decide (c.2 < 2 ^ 64)) = true)
+    (hdist : distinctBy (fun c : String × Nat => c.2) entries = true) :
+    enumOk (generatedEnum name bitmask entries) = true := by
+  apply enumOk_of_parts _ _ hnames
+  unfold valuesOk generatedEnum
+  cases bitmask <;> simp [hvals, hdist, listOk]
+
+theorem generated_bitmask_roundtrip (name : String) (entries : List (String × Nat))
+    (hnames : namesOk (generatedEnum name true entries) = true)
+    (hvals : entries.all (fun c => decide (c.2 < 2 ^ 64)) = true)
+    (hdist : distinctBy (fun c : String × Nat => c.2) entries = true)
+    (S : List UInt64) (hS : ∀ s ∈ S, s ∈ masks (generatedEnum name true entries)) :
+    unmarshal (generatedEnum name true entries) (marshal (generatedEnum name true entries) (orAll S 0)) = some (orAll S 0) :=
+  bitmask_roundtrip _ (entries.map (·.2)) rfl (generated_enum_ok name true entries hnames hvals hdist) S hS
+
+/-- overlapping groups are covered: LOW = 1, HIGH = 2, MASK = 3 — the value 3 is rendered with all three names and parses back -/
+example : let d := generatedEnum "E" true [("E_LOW", 1), ("E_HIGH", 2), ("E_MASK", 3)]
+    enumOk d = true ∧ marshal d 3 = "E_LOW | E_HIGH | E_MASK".toList ∧ unmarshal d (marshal d 3) = some 3 := by
+  set_option maxRecDepth 100000 in decide +kernel
+
 end Mav.C19
